@@ -197,6 +197,9 @@ impl Scenario for SjScenario {
         let est = 60 + n as u64 * 10;
         json!({"w": w, "n": n, "variant": variant, "release": release, "errs": errs, "dep": dep,
                "source_gated": r.chance(1, 2), "inexact_hint": r.chance(1, 2),
+               // tasks behind the first failing one never complete (they wait for something the failed step will not send): the
+               // join must still report the error
+               "stuck_after_err": variant != "join" && r.chance(1, 3),
                "source_steps": source_steps, "sched": SchedSpec::draw(&mut r, est, 200_000)})
     }
 
@@ -209,6 +212,8 @@ impl Scenario for SjScenario {
         let dep = pu(p, "dep");
         let source_steps = pvec(p, "source_steps");
         let gated = pb(p, "source_gated");
+        let stuck_after_err = p.get("stuck_after_err").and_then(Value::as_bool) == Some(true) && !errs.is_empty();
+        let first_err_idx = errs.iter().copied().min();
         let inexact = pb(p, "inexact_hint");
         {
             let mut seen = release.clone();
@@ -278,6 +283,9 @@ impl Scenario for SjScenario {
                     let st = StdArc::clone(&st);
                     shuttle::future::spawn(async move {
                         for i in release {
+                            if stuck_after_err && first_err_idx.is_some_and(|e| i > e) {
+                                continue;
+                            }
                             {
                                 let mut s = st.lock().unwrap();
                                 s.released[i] = true;
@@ -424,5 +432,6 @@ fn judge(
     res.probe("source_pending", s.source_polls_pending);
     res.probe("dep_runs", u64::from(dep > 0));
     res.probe("error_runs", u64::from(!errs.is_empty()));
+    res.probe("error_with_stuck_successors", u64::from(_p.get("stuck_after_err").and_then(Value::as_bool) == Some(true) && !errs.is_empty()));
     res
 }
